@@ -334,7 +334,7 @@ impl Scenario for ArpSc {
 pub fn cfgs(tier: &str) -> Vec<(ArpCfg, Bounds)> {
     let q = tier == "quick";
     let k = if q { 4 } else { 6 };
-    let wall = Duration::from_secs(if q { 20 } else { 300 });
+    let wall = Duration::from_secs(if q { 150 } else { 900 });
     let sd = if q { 2 } else { 3 };
     let bounds = move |lossy: usize| {
         Bounds::new(lossy + sd)
